@@ -147,15 +147,266 @@ func fittedInput(rng *simkit.RNG) []Item {
 // generate draws plans until one is valid (the scenario builders aim at valid
 // plans; what they miss, mostly output that could overfill a pipe's page
 // slots in front of a gate, is drawn again).  Every choice comes from rng.
-func generate(rng *simkit.RNG) []Item {
+func generate(rng *simkit.RNG, idx int64) (Config, []Item) {
 	var items []Item
+	cfg := Config{V: 1}
+	// Some runs go through simpleshell.GoSimple and a C2 side served by the
+	// worker.  Those whose consumer naps in real time take seconds instead of
+	// milliseconds: a worker makes them often among its first runs (so that
+	// even a short budget sees several) and rarely afterwards (so that the
+	// other plans keep their share of a long one).
+	napDen := 300
+	if idx >= 0 && idx < napEarlyRuns {
+		napDen = 12
+	}
+	nap := rng.Chance(1, napDen)
+	if nap || rng.Chance(1, 10) {
+		cfg.Fam = famGoSimple
+		cfg.Win = pick(rng, []int{0, 0, 65536, 262144})
+		cfg.FPre = rng.Chance(1, 2)
+		for attempt := 0; attempt < 100; attempt++ {
+			if nap {
+				items = generateGSNap(rng, cfg)
+			} else {
+				items = generateGS(rng, cfg)
+			}
+			if pl, _ := newPlan(cfg, items); pl != nil {
+				return cfg, items
+			}
+		}
+		return cfg, items
+	}
 	for attempt := 0; attempt < 100; attempt++ {
 		items = generate1(rng)
-		if pl, _ := newPlan(items); pl != nil {
-			return items
+		if pl, _ := newPlan(cfg, items); pl != nil {
+			return cfg, items
 		}
 	}
-	return items // invalid: the engine reports a harness error
+	return cfg, items // invalid: the engine reports a harness error
+}
+
+// napEarlyRuns: among a worker's first this-many runs one in twelve has the
+// real-time nap, afterwards one in three hundred.
+const napEarlyRuns = 64
+
+// gsCapacity is a generous guess of how much output can be in flight between
+// the shell and a C2 side that is not reading (flow-control window plus
+// whatever the HTTP client, TLS and the relay hold).  Only the aim of the
+// stimulus depends on it: a plan that writes more than this keeps bytes in the
+// kernel pipes of the command while the consumer stands still.
+func gsCapacity(cfg Config) int {
+	win := cfg.Win
+	if win == 0 {
+		win = 1 << 20
+	}
+	return win + 160000
+}
+
+func exitItem(rng *simkit.RNG) []Item {
+	switch rng.Intn(6) {
+	case 0, 1:
+		return []Item{{K: "exit", Code: pick(rng, exitCodes)}}
+	case 2:
+		return []Item{{K: "exit"}}
+	case 3:
+		return []Item{{K: "kill", Sig: pick(rng, []int{9, 15})}}
+	}
+	return nil
+}
+
+// gsInput: optional input while the command runs (it does not read it: at
+// most what the stdin pipe surely holds), then the input that follows the
+// command's exit (see newPlan: without it Wait would rightly never return).
+func gsInput(rng *simkit.RNG) []Item {
+	var input []Item
+	if rng.Chance(1, 3) {
+		input = fittedInput(rng)
+	}
+	input = append(input, Item{K: "ingate", G: "child_exited"})
+	for k := rng.Range(1, 2); k > 0; k-- {
+		input = append(input, Item{K: "in", N: pick(rng, []int{1, 1, 2, 100, 4096, 40000})})
+	}
+	return input
+}
+
+// bigWrites cuts total into writes of at most gsMaxWrite for one descriptor.
+func bigWrites(rng *simkit.RNG, fd, total int) []Item {
+	var out []Item
+	for total > 0 {
+		n := total
+		if n > 65536 && rng.Chance(1, 2) {
+			n = rng.Range(1, total)
+		}
+		if rng.Chance(1, 4) {
+			n = min(total, pick(rng, []int{1, 100, 4096, 65536, 65537, 300000}))
+		}
+		n = min(n, gsMaxWrite)
+		out = append(out, Item{K: "w", FD: fd, N: n})
+		total -= n
+	}
+	return out
+}
+
+// generateGSNap: the consumer is the slowest party while the command runs, the
+// command writes more than can be in flight and exits at once, and the
+// consumer then stands still for 1.5-2.5 s of real time, longer than any
+// plausible grace period after the command's exit, before it reads on.
+func generateGSNap(rng *simkit.RNG, cfg Config) []Item {
+	capacity := gsCapacity(cfg)
+	total := capacity + rng.Range(100000, 900000)
+	var a, b int
+	switch rng.Intn(4) {
+	case 0:
+		a = total
+	case 1:
+		b = total
+	default:
+		a = rng.Range(70000, total-70000)
+		b = total - a
+	}
+	var child []Item
+	wa, wb := bigWrites(rng, 1, a), bigWrites(rng, 2, b)
+	switch rng.Intn(3) {
+	case 0: // one descriptor after the other
+		if rng.Chance(1, 2) {
+			child = append(append(child, wa...), wb...)
+		} else {
+			child = append(append(child, wb...), wa...)
+		}
+	default: // interleaved
+		for len(wa) > 0 || len(wb) > 0 {
+			if len(wb) == 0 || (len(wa) > 0 && rng.Chance(1, 2)) {
+				child = append(child, wa[0])
+				wa = wa[1:]
+			} else {
+				child = append(child, wb[0])
+				wb = wb[1:]
+			}
+		}
+	}
+	child = append(child, exitItem(rng)...)
+	var cons []Item
+	if rng.Chance(1, 3) {
+		rs, _ := reads(rng, total/4)
+		cons = append(cons, rs...)
+	}
+	if rng.Chance(3, 4) {
+		// reads when the command is seen blocked writing
+		cons = append(cons, Item{K: "readx", G: "wblock", Sz: pick(rng, []int{4096, 8192, 16384, 32768}), N: pick(rng, []int{1000, 2000, 4000})})
+	} else {
+		// reads at a pace of 1.6 to 4 MB/s
+		pace := [][2]int{{4096, 2000}, {8192, 2000}, {16384, 4000}, {8192, 5000}, {2048, 1000}, {32768, 8000}}[rng.Intn(6)]
+		cons = append(cons, Item{K: "readx", Sz: pace[0], N: pace[1]})
+	}
+	cons = append(cons, Item{K: "rgate", G: "reaped"})
+	cons = append(cons, Item{K: "nap", N: rng.Range(1500, 2500)})
+	if rng.Chance(1, 3) {
+		rs, _ := reads(rng, 100000)
+		cons = append(cons, rs...)
+	}
+	if rng.Chance(3, 4) {
+		cons = append(cons, Item{K: "drain", Sz: pick(rng, []int{4096, 32768, 32768, 65536})})
+	}
+	var items []Item
+	items = append(items, child...)
+	items = append(items, gsInput(rng)...)
+	items = append(items, cons...)
+	return items
+}
+
+// generateGS: plans of the GoSimple family whose waits are all observed
+// states.
+func generateGS(rng *simkit.RNG, cfg Config) []Item {
+	var child, cons []Item
+	all := append(append([]int(nil), smallSizes...), bigSizes...)
+	scen := rng.Pick([]int{30, 25, 25, 10, 10})
+	a, b := 0, 0
+	switch scen {
+	case 0: // the consumer starts only after the command has been reaped
+		switch rng.Intn(3) {
+		case 0:
+			a = pick(rng, smallSizes)
+		case 1:
+			b = pick(rng, smallSizes)
+		default:
+			a, b = pick(rng, smallSizes), pick(rng, smallSizes)
+			if a+b > pipeSafe {
+				b = pipeSafe - a
+			}
+		}
+		child = writes(rng, a, b)
+		child = append(child, exitItem(rng)...)
+		cons = append(cons, Item{K: "rgate", G: "reaped"})
+		rs, _ := reads(rng, max(a+b, 1))
+		cons = append(cons, rs...)
+	case 1: // free consumer of some speed, any amount of output
+		a, b = pick(rng, all), pick(rng, all)
+		if rng.Chance(1, 3) {
+			a += rng.Range(0, gsCapacity(cfg))
+		}
+		if rng.Chance(1, 4) {
+			a = 0
+		} else if rng.Chance(1, 4) {
+			b = 0
+		}
+		child = append(child, bigWrites(rng, 1, a)...)
+		for _, w := range bigWrites(rng, 2, b) {
+			child = insertAt(rng, child, w)
+		}
+		child = append(child, exitItem(rng)...)
+		rs, _ := reads(rng, max(a+b, 1))
+		cons = append(cons, rs...)
+	case 2: // the consumer is the slowest party until the command has exited
+		a, b = pick(rng, all), pick(rng, all)
+		if rng.Chance(2, 3) {
+			a += rng.Range(0, gsCapacity(cfg)+300000)
+		}
+		if rng.Chance(1, 4) {
+			a, b = b, a
+		}
+		child = append(child, bigWrites(rng, 1, a)...)
+		for _, w := range bigWrites(rng, 2, b) {
+			child = insertAt(rng, child, w)
+		}
+		child = append(child, exitItem(rng)...)
+		if rng.Chance(1, 2) {
+			cons = append(cons, Item{K: "readx", G: "wblock", Sz: pick(rng, []int{4096, 8192, 32768, 65536}), N: pick(rng, []int{200, 1000, 2000})})
+		} else {
+			pace := [][2]int{{4096, 500}, {8192, 1000}, {512, 0}, {65536, 0}, {32768, 2000}}[rng.Intn(5)]
+			cons = append(cons, Item{K: "readx", Sz: pace[0], N: pace[1]})
+		}
+		if rng.Chance(1, 2) {
+			cons = append(cons, Item{K: "rgate", G: "reaped"})
+		}
+	case 3: // no output at all
+		if rng.Chance(1, 2) {
+			child = writes(rng, 0, 0)
+		}
+		child = append(child, exitItem(rng)...)
+		switch rng.Intn(3) {
+		case 0:
+			cons = append(cons, Item{K: "rgate", G: "go_returned"})
+		case 1:
+			cons = append(cons, Item{K: "rgate", G: "reaped"})
+		}
+	default: // the command waits until the consumer has caught up, then a last write and exit
+		a = pick(rng, smallSizes[1:])
+		fd := rng.Range(1, 2)
+		child = append(child, Item{K: "w", FD: fd, N: a})
+		child = append(child, Item{K: "cwait", N: rng.Range(1, a)})
+		last := pick(rng, all[1:])
+		child = append(child, Item{K: "w", FD: rng.Range(1, 2), N: last})
+		child = append(child, exitItem(rng)...)
+		rs, _ := reads(rng, a+last)
+		cons = append(cons, rs...)
+		b = last
+	}
+	cons = append(cons, drainItem(rng, a+b)...)
+	var items []Item
+	items = append(items, child...)
+	items = append(items, gsInput(rng)...)
+	items = append(items, cons...)
+	return items
 }
 
 func generate1(rng *simkit.RNG) []Item {
